@@ -546,6 +546,22 @@ fn rkyv_op(t: &[&str]) -> String {
     let ax = rkyv::check_archived_root::<Decimal>(&bx[..]).unwrap();
     let ay = rkyv::check_archived_root::<Decimal>(&by[..]).unwrap();
     let dx: Decimal = ax.deserialize(&mut rkyv::Infallible).unwrap();
+    // the provided comparison operators must agree with partial_cmp in every operand combination
+    let cons = |pc: Option<core::cmp::Ordering>, lt: bool, le: bool, gt: bool, ge: bool, ne: bool, eq: bool| -> bool {
+        use core::cmp::Ordering::*;
+        match pc {
+            Some(Less) => lt && le && !gt && !ge && ne && !eq,
+            Some(Equal) => !lt && le && !gt && ge && !ne && eq,
+            Some(Greater) => !lt && !le && gt && ge && ne && !eq,
+            None => !lt && !le && !gt && !ge,
+        }
+    };
+    let ok = cons(ax.partial_cmp(ay), ax < ay, ax <= ay, ax > ay, ax >= ay, ax != ay, ax == ay)
+        && cons(ax.partial_cmp(&y), *ax < y, *ax <= y, *ax > y, *ax >= y, *ax != y, *ax == y)
+        && cons(x.partial_cmp(ay), x < *ay, x <= *ay, x > *ay, x >= *ay, x != *ay, x == *ay);
+    if !ok {
+        return "inconsistent".to_string();
+    }
     format!(
         "{} {}{}{} {} {} {}",
         show(dx).replace(' ', ","),
